@@ -284,6 +284,9 @@ func enumerate(ctx *hx.Ctx, size uint64, length int) int {
 		if d == length {
 			cl, il := runSeqFast(size, cur)
 			idx := ctx.Corr(cl, il)
+			if n%8 == 0 || ctx.Thorough {
+				progCorr(ctx, cl, il)
+			}
 			ctx.Eval()
 			seqOracle(ctx, idx, size, cl, il)
 			ctx.Nontrivial(cl)
@@ -325,6 +328,7 @@ func randomSeq(ctx *hx.Ctx, size uint64, length int, probe bool) {
 		cl, il = runSeqFast(size, ops)
 	}
 	idx := ctx.Corr(cl, il)
+	progCorr(ctx, cl, il)
 	ctx.Eval()
 	seqOracle(ctx, idx, size, cl, il)
 	ctx.Nontrivial(cl)
@@ -924,5 +928,13 @@ func main() {
 			cfg.closeMode = 2
 		}
 		concRun(ctx, cfg, r.U64())
+	}
+}
+
+// progCorr: the same sequence through Push / Pull / Close / Reset as translated from ringbuffer.go (coq/gen/Prog.v) and
+// executed by the interpreter of coq/lib/Imp.v: case kind 3
+func progCorr(ctx *hx.Ctx, cl, il string) {
+	if strings.HasPrefix(cl, "1 ") {
+		ctx.Corr("3 "+cl[2:], il)
 	}
 }
